@@ -21,6 +21,7 @@ import (
 	"verif/internal/gen"
 	"verif/internal/mon"
 	"verif/internal/ref"
+	"verif/internal/scribble"
 )
 
 func main() { mon.Main("C01", run) }
@@ -235,6 +236,10 @@ func one(c *mon.Ctx, codec frame.RawCodec, comp string, cs gen.Case, id string, 
 	if flag && len(b) > hl {
 		c.Max("max_ratio_x10_"+comp, int64(10*plainLen(codec, f)/(len(b)-hl)))
 	}
+	// this case is done with its decoded frame: overwrite everything in it. A decoder that hands out objects it
+	// keeps using (shared NULL/UNSET values, interned type definitions, pooled buffers) returns the damage in a
+	// later case of this worker, where it is an ordinary mismatch.
+	c.Count("locations_scribbled_in_decoded_frames", int64(scribble.Over(f2)))
 	c.Count("ok/"+comp, 1)
 	c.Count("kind/"+cs.Kind+"/"+a.Version.String(), 1)
 	c.Distinct(cs.Sig + "|" + comp)
